@@ -103,6 +103,10 @@ fn verify_v2(req: &RawRequest, secrets: &HashMap<String, String>) -> V2Facts {
 }
 
 pub fn judge(rt: &tokio::runtime::Runtime, r: &mut Report, case: &Case) {
+    judge_with_session_check(r, |rep| judge_inner(rt, rep, case));
+}
+
+fn judge_inner(rt: &tokio::runtime::Runtime, r: &mut Report, case: &Case) {
     if case.req.build().is_none() {
         r.inconclusive("request not expressible with the http crate");
         return;
@@ -245,6 +249,15 @@ fn gen_unsigned(g: &mut Rng, vhost: bool) -> RawRequest {
         req.headers.push((n.clone(), format!("{} {}", g.alnum(4), g.alnum(2)).into_bytes()));
         if g.chance(1, 4) {
             req.headers.push((n, g.alnum(3).into_bytes()));
+        }
+    }
+    // now and then dozens of header lines, several repeating an x-amz-* name with different values, unsorted
+    if g.chance(1, 10) {
+        let n = 25 + g.usize_below(60);
+        let pool = 3 + g.usize_below(n / 2);
+        for _ in 0..n {
+            let name = format!("{}-m{}", *g.pick(&["x-amz-meta", "X-Amz-Meta", "x-other"]), g.usize_below(pool));
+            req.headers.push((name, g.alnum_upto(1, 6).into_bytes()));
         }
     }
     if method == "PUT" {
@@ -453,6 +466,10 @@ pub fn run(ctx: &RunCtx) -> i32 {
     let total = par_run(ctx.workers, n_base.div_ceil(per), |j, r| {
         let rt = new_runtime();
         let mut g = Rng::new(derive_seed(ctx.seed, "C11", j));
+        // every other job sends all its requests through one reused service instance per configuration
+        if j % 2 == 1 {
+            session_begin();
+        }
         for _ in 0..per {
             let vhost = g.chance(1, 2);
             let query_mode = g.chance(1, 2);
@@ -483,6 +500,7 @@ pub fn run(ctx: &RunCtx) -> i32 {
             let case = Case { req: req.clone(), op: "secret/changed-at-provider".into(), mode: mode.into(), vhost, secrets: s2 };
             judge(&rt, r, &case);
         }
+        r.count("requests_served_by_a_reused_service_instance", session_end());
     });
     finish(ctx, &meta, &total)
 }
